@@ -12,5 +12,235 @@ pub mod vprops_refresh {
 #[allow(unused_imports)] use crate::*;
 verus! {
 
+// ===================================================================================================
+// algebra used below
+
+// (a + b) + (x + y) == (a + x) + (b + y)
+//@serves C10
+pub proof fn lemma_add4<C: Ciphersuite>(a: Scalar<C>, b: Scalar<C>, x: Scalar<C>, y: Scalar<C>)
+    ensures sadd::<C>(sadd::<C>(a, b), sadd::<C>(x, y)) == sadd::<C>(sadd::<C>(a, x), sadd::<C>(b, y))
+{
+    FF::<C>::ax_add_assoc(a, b, sadd::<C>(x, y)); FF::<C>::ax_add_assoc(b, x, y); FF::<C>::ax_add_comm(b, x);
+    FF::<C>::ax_add_assoc(x, b, y); FF::<C>::ax_add_assoc(a, x, sadd::<C>(b, y));
+}
+
+// coefficient-wise sum of two polynomials of the same length
+pub open spec fn padd<C: Ciphersuite>(a: Seq<Scalar<C>>, b: Seq<Scalar<C>>) -> Seq<Scalar<C>>
+{ Seq::new(a.len(), |i: int| sadd::<C>(a[i], b[i])) }
+
+// (a + b)(x) == a(x) + b(x)
+//@serves C10
+pub proof fn lemma_poly_add<C: Ciphersuite>(a: Seq<Scalar<C>>, b: Seq<Scalar<C>>, x: Scalar<C>)
+    requires a.len() == b.len()
+    ensures poly::<AL<C>>(padd::<C>(a, b), x) == sadd::<C>(poly::<AL<C>>(a, x), poly::<AL<C>>(b, x))
+    decreases a.len()
+{
+    if a.len() == 0 {
+        FF::<C>::ax_add_zero(s0::<C>());
+    } else {
+        let a1 = a.drop_first(); let b1 = b.drop_first();
+        lemma_poly_add::<C>(a1, b1, x);
+        assert(padd::<C>(a, b).drop_first() =~= padd::<C>(a1, b1));
+        let pa = poly::<AL<C>>(a1, x); let pb = poly::<AL<C>>(b1, x);
+        // (pa + pb) * x == pa * x + pb * x
+        FF::<C>::ax_mul_comm(sadd::<C>(pa, pb), x); FF::<C>::ax_distrib(x, pa, pb); FF::<C>::ax_mul_comm(x, pa); FF::<C>::ax_mul_comm(x, pb);
+        lemma_add4::<C>(a[0], b[0], smul::<C>(pa, x), smul::<C>(pb, x));
+    }
+}
+
+// G * 0 is the identity: the commitment to a zero constant term is the entry that refresh strips and re-inserts
+//@serves C10
+pub proof fn lemma_recompleted_commitment<C: Ciphersuite>(r: Seq<Scalar<C>>)
+    requires r.len() >= 1, r[0] == s0::<C>()
+    ensures spec_with_identity::<C>(spec_stripped_commitment::<C>(r)) == spec_commitment::<C>(r),
+        spec_with_identity::<C>(spec_commitment::<C>(r).drop_first()) == spec_commitment::<C>(r)
+{
+    lemma_smul_zero::<C>(eg::<C>());
+    assert(spec_commitment::<C>(r)[0] == identity_cc::<C>());
+    assert(spec_with_identity::<C>(spec_commitment::<C>(r).drop_first()) =~= spec_commitment::<C>(r));
+}
+
+// ===================================================================================================
+// (i) refresh by a trusted dealer: compute_refreshing_shares (contract: spec_refresh_output) followed by refresh_share (spec_refresh_share)
+
+// C10: the group verifying key, the threshold and the header are unchanged; the refreshed public key package lists exactly the
+// identifiers that take part (a participant that is left out is REMOVED from the package)
+//@serves C10
+pub proof fn thm_dealer_refresh_group_key_unchanged<C: Ciphersuite>(out: Seq<SecretShare<C>>, npk: PublicKeyPackage<C>, pk: PublicKeyPackage<C>,
+        ids: Seq<Identifier<C>>, r: Seq<Scalar<C>>)
+    requires spec_refresh_output::<C>(out, npk, pk, ids, r)
+    ensures npk.verifying_key == pk.verifying_key, npk.min_signers == pk.min_signers, npk.header == pk.header,
+        npk.verifying_shares@.dom() == ids.to_set(), out.len() == ids.len(),
+        forall|id: Identifier<C>| !ids.contains(id) ==> !npk.verifying_shares@.contains_key(id),
+{
+    assert(ids.take(ids.len() as int) =~= ids);
+}
+
+// C10: for EVERY participant k of the refresh, refresh_share applied to the share the dealer made for it and to its current (consistent)
+// key package succeeds, and the refreshed key package has the same identifier, threshold and group key, the signing share
+// old + r(id), a verifying share equal to G * (new signing share) AND to its entry in the refreshed public key package
+//@serves C10
+pub proof fn thm_dealer_refresh_package_relinked<C: Ciphersuite>(out: Seq<SecretShare<C>>, npk: PublicKeyPackage<C>, pk: PublicKeyPackage<C>,
+        ids: Seq<Identifier<C>>, r: Seq<Scalar<C>>, k: int, cur: KeyPackage<C>)
+    requires spec_refresh_output::<C>(out, npk, pk, ids, r), 1 <= r.len() <= 65535, r[0] == s0::<C>(), 0 <= k < ids.len(),
+        // the participant's current package is the one the old public key package describes
+        cur.identifier == ids[k], cur.min_signers == r.len(), cur.verifying_key == pk.verifying_key,
+        cur.verifying_share.0.0 == gmul::<C>(cur.signing_share.0.0), pk.verifying_shares@[ids[k]] == cur.verifying_share,
+    ensures
+        spec_refresh_share::<C>(out[k], cur) is Ok,
+        (spec_refresh_share::<C>(out[k], cur)->Ok_0).identifier == cur.identifier,
+        (spec_refresh_share::<C>(out[k], cur)->Ok_0).min_signers == cur.min_signers,
+        (spec_refresh_share::<C>(out[k], cur)->Ok_0).verifying_key == cur.verifying_key,
+        (spec_refresh_share::<C>(out[k], cur)->Ok_0).verifying_key == npk.verifying_key,
+        (spec_refresh_share::<C>(out[k], cur)->Ok_0).header == cur.header,
+        (spec_refresh_share::<C>(out[k], cur)->Ok_0).signing_share.0.0 == sadd::<C>(poly::<AL<C>>(r, ids[k].0.0), cur.signing_share.0.0),
+        (spec_refresh_share::<C>(out[k], cur)->Ok_0).verifying_share.0.0 == gmul::<C>((spec_refresh_share::<C>(out[k], cur)->Ok_0).signing_share.0.0),
+        (spec_refresh_share::<C>(out[k], cur)->Ok_0).verifying_share == npk.verifying_shares@[ids[k]],
+{
+    let id = ids[k];
+    let sh = out[k];
+    assert(spec_is_refreshing_share::<C>(sh, id, r));
+    lemma_recompleted_commitment::<C>(r);
+    // VSS check of r(id) against the re-completed commitment G*r
+    lemma_vss_complete::<C>(r, id.0.0, s1::<C>());
+    lemma_one_mul::<AL<C>>(poly::<AL<C>>(r, id.0.0));
+    assert(spec_commitment::<C>(r).len() == r.len());
+    // G*(r(id) + s) == G*r(id) + G*s == entry of the refreshed public key package
+    GG::<C>::ax_smul_add(eg::<C>(), poly::<AL<C>>(r, id.0.0), cur.signing_share.0.0);
+}
+
+// C10: a refreshing share whose re-completed commitment does not have exactly the participant's threshold many entries is refused with
+// InvalidMinSigners (a refresh cannot change the threshold)
+//@serves C10
+pub proof fn thm_refresh_share_threshold_change_rejected<C: Ciphersuite>(rs: SecretShare<C>, cur: KeyPackage<C>)
+    requires spec_refresh_share_ok::<C>(rs.identifier, rs.signing_share.0.0, rs.commitment.0@) is Ok,
+        ((rs.commitment.0@.len() + 1) as u16) != cur.min_signers
+    ensures spec_refresh_share::<C>(rs, cur) == Err::<KeyPackage<C>, Error<C>>(Error::InvalidMinSigners)
+{
+    assert(spec_with_identity::<C>(rs.commitment.0@).len() == rs.commitment.0@.len() + 1);
+}
+
+// C10 (both variants): against the published (stripped) commitment of a polynomial a, re-completed with the identity, the scalar f is
+// accepted at identifier `own` exactly when  f == a(own) - a_0.  So the honest share a(own) is accepted iff the constant term a_0 is ZERO:
+// a refreshing contribution with a non-zero constant term is rejected with InvalidSecretShare
+//@serves C10
+pub proof fn thm_refresh_share_accepted_iff<C: Ciphersuite>(own: Identifier<C>, f: Scalar<C>, a: Seq<Scalar<C>>)
+    requires a.len() >= 1
+    ensures (spec_refresh_share_ok::<C>(own, f, spec_stripped_commitment::<C>(a)) is Ok) == (sadd::<C>(a[0], f) == poly::<AL<C>>(a, own.0.0)),
+        sadd::<C>(a[0], f) != poly::<AL<C>>(a, own.0.0)
+            ==> spec_refresh_share_ok::<C>(own, f, spec_stripped_commitment::<C>(a)) == Err::<(), Error<C>>(Error::InvalidSecretShare { culprit: None }),
+{
+    // a' = a with the constant term replaced by zero: the re-completed commitment is the commitment of a'
+    let a1 = seq![s0::<C>()] + a.drop_first();
+    assert(a1.drop_first() =~= a.drop_first());
+    assert(spec_commitment::<C>(a1).drop_first() =~= spec_commitment::<C>(a).drop_first());
+    lemma_recompleted_commitment::<C>(a1);
+    let x = own.0.0;
+    lemma_vss_complete::<C>(a1, x, s1::<C>());
+    lemma_one_mul::<AL<C>>(poly::<AL<C>>(a1, x));
+    assert(spec_commitment::<C>(a1).len() == a1.len());
+    let t = smul::<C>(poly::<AL<C>>(a.drop_first(), x), x);
+    // a'(x) == 0 + t,  a(x) == a_0 + t
+    lemma_zero_add::<AL<C>>(t);
+    assert(poly::<AL<C>>(a1, x) == t);
+    assert(poly::<AL<C>>(a, x) == sadd::<C>(a[0], t));
+    if gmul::<C>(f) == gmul::<C>(t) { lemma_gen_inj::<C>(f, t); }
+    if sadd::<C>(a[0], f) == sadd::<C>(a[0], t) { lemma_add_cancel::<AL<C>>(a[0], f, t); }
+}
+
+// C10: the share of a polynomial with NON-ZERO constant term is rejected by refresh_share (trusted dealer) ...
+//@serves C10
+pub proof fn thm_nonzero_constant_rejected<C: Ciphersuite>(rs: SecretShare<C>, cur: KeyPackage<C>, a: Seq<Scalar<C>>)
+    requires a.len() >= 1, a[0] != s0::<C>(),
+        rs.signing_share.0.0 == poly::<AL<C>>(a, rs.identifier.0.0), rs.commitment.0@ == spec_stripped_commitment::<C>(a)
+    ensures spec_refresh_share::<C>(rs, cur) == Err::<KeyPackage<C>, Error<C>>(Error::InvalidSecretShare { culprit: None }),
+        // ... and by refresh_dkg_shares (distributed), whoever the recipient `rs.identifier` is
+        spec_refresh_share_ok::<C>(rs.identifier, poly::<AL<C>>(a, rs.identifier.0.0), spec_stripped_commitment::<C>(a)) == Err::<(), Error<C>>(Error::InvalidSecretShare { culprit: None }),
+{
+    let f = poly::<AL<C>>(a, rs.identifier.0.0);
+    thm_refresh_share_accepted_iff::<C>(rs.identifier, f, a);
+    if sadd::<C>(a[0], f) == f { lemma_zero_add::<AL<C>>(f); FF::<C>::ax_add_comm(a[0], f); FF::<C>::ax_add_comm(s0::<C>(), f); lemma_add_cancel::<AL<C>>(f, a[0], s0::<C>()); }
+}
+
+// ===================================================================================================
+// "any t refreshed participants can sign": the refreshed shares are again evaluations of ONE polynomial of degree t-1 with the SAME constant
+// term (old polynomial + refreshing polynomial), so any >= t of them interpolate to the same secret (what `reconstruct` returns and what
+// the Lagrange-weighted signature shares of `sign` add up to: C01)
+
+//@serves C10
+pub proof fn thm_refreshed_shares_reconstruct<C: Ciphersuite>(kps: Seq<KeyPackage<C>>, f: Seq<Scalar<C>>, r: Seq<Scalar<C>>)
+    requires
+        kp_ids::<C>(kps).no_duplicates(), f.len() == r.len(), 1 <= f.len() <= kps.len(), r[0] == s0::<C>(),
+        // every package holds  r(id) + f(id)  (the value spec_refresh_share / spec_refresh_new_share computes from the old share f(id))
+        forall|k: int| 0 <= k < kps.len() ==> (#[trigger] kps[k]).signing_share.0.0
+            == sadd::<C>(poly::<AL<C>>(r, kps[k].identifier.0.0), poly::<AL<C>>(f, kps[k].identifier.0.0)),
+    ensures spec_interpolate0::<C>(kps, sorted_seq(kp_ids::<C>(kps).to_set()), kps.len() as nat) == f[0]
+{
+    let g = padd::<C>(r, f);
+    assert forall|k: int| 0 <= k < kps.len() implies (#[trigger] kps[k]).signing_share.0.0 == poly::<AL<C>>(g, kps[k].identifier.0.0) by {
+        lemma_poly_add::<C>(r, f, kps[k].identifier.0.0);
+    }
+    thm_reconstruct::<C>(kps, g);
+    lemma_zero_add::<AL<C>>(f[0]);
+}
+
+// ===================================================================================================
+// "a signer set mixing pre-refresh and post-refresh shares, or including a removed participant, fails" -- the algebraic core.
+// Interpolation is linear in the shares:
+
+//@serves C10
+pub proof fn lemma_interpolate0_add<C: Ciphersuite>(kps: Seq<KeyPackage<C>>, base: Seq<KeyPackage<C>>, err: Seq<KeyPackage<C>>, srt: Seq<Identifier<C>>, n: nat)
+    requires n <= kps.len(), kps.len() == base.len(), kps.len() == err.len(),
+        forall|k: int| 0 <= k < kps.len() ==> (#[trigger] kps[k]).identifier == base[k].identifier && kps[k].identifier == err[k].identifier
+            && kps[k].signing_share.0.0 == sadd::<C>(base[k].signing_share.0.0, err[k].signing_share.0.0),
+    ensures spec_interpolate0::<C>(kps, srt, n) == sadd::<C>(spec_interpolate0::<C>(base, srt, n), spec_interpolate0::<C>(err, srt, n))
+    decreases n
+{
+    if n == 0 {
+        FF::<C>::ax_add_zero(s0::<C>());
+    } else {
+        lemma_interpolate0_add::<C>(kps, base, err, srt, (n - 1) as nat);
+        let l = spec_lagrange::<C>(srt, None, kps[n - 1].identifier);
+        let b = base[n - 1].signing_share.0.0; let e = err[n - 1].signing_share.0.0;
+        assert(kps[n - 1].identifier == base[n - 1].identifier && kps[n - 1].identifier == err[n - 1].identifier);
+        FF::<C>::ax_distrib(l, b, e);
+        lemma_add4::<C>(spec_interpolate0::<C>(base, srt, (n - 1) as nat), spec_interpolate0::<C>(err, srt, (n - 1) as nat), smul::<C>(l, b), smul::<C>(l, e));
+    }
+}
+
+// C10 (mixing): take >= t distinct participants; `base` holds their PRE-refresh shares f(id); `kps` holds what they actually use, namely
+// pre-refresh share + err, where err is r(id) for a participant that uses its refreshed share and 0 for one that uses its old share (a
+// REMOVED participant only has an old share).  Then the value the set interpolates to (the key its signature shares add up to) is
+//        secret  +  sum_{k} lambda_k(0) * err_k
+// so the set recovers the group secret IF AND ONLY IF the Lagrange-weighted sum of the refresh values over the refreshed members vanishes.
+// For an all-refreshed set that sum is r(0) = 0 (thm_refreshed_shares_reconstruct); for a mixed set it is a non-trivial linear combination
+// of the fresh random coefficients of r (zero only with probability 1/q over the dealer's draws -- that last step is probabilistic and
+// not decided here).
+//@serves C10
+pub proof fn thm_mixed_shares_miss_the_secret<C: Ciphersuite>(kps: Seq<KeyPackage<C>>, base: Seq<KeyPackage<C>>, err: Seq<KeyPackage<C>>, f: Seq<Scalar<C>>)
+    requires kp_ids::<C>(kps).no_duplicates(), 1 <= f.len() <= kps.len(), kps.len() == base.len(), kps.len() == err.len(),
+        forall|k: int| 0 <= k < kps.len() ==> (#[trigger] kps[k]).identifier == base[k].identifier && kps[k].identifier == err[k].identifier
+            && base[k].signing_share.0.0 == poly::<AL<C>>(f, kps[k].identifier.0.0)
+            && kps[k].signing_share.0.0 == sadd::<C>(base[k].signing_share.0.0, err[k].signing_share.0.0),
+    ensures ({
+        let srt = sorted_seq(kp_ids::<C>(kps).to_set());
+        let got = spec_interpolate0::<C>(kps, srt, kps.len() as nat);
+        let deviation = spec_interpolate0::<C>(err, srt, kps.len() as nat);
+        got == sadd::<C>(f[0], deviation) && ((got == f[0]) == (deviation == s0::<C>()))
+    })
+{
+    let srt = sorted_seq(kp_ids::<C>(kps).to_set());
+    let n = kps.len() as nat;
+    lemma_interpolate0_add::<C>(kps, base, err, srt, n);
+    assert(kp_ids::<C>(base) =~= kp_ids::<C>(kps));
+    assert forall|k: int| 0 <= k < base.len() implies (#[trigger] base[k]).signing_share.0.0 == poly::<AL<C>>(f, base[k].identifier.0.0) by {
+        assert(kps[k].identifier == base[k].identifier);
+    }
+    thm_reconstruct::<C>(base, f);
+    let deviation = spec_interpolate0::<C>(err, srt, n);
+    FF::<C>::ax_add_zero(f[0]);
+    if sadd::<C>(f[0], deviation) == f[0] { lemma_add_cancel::<AL<C>>(f[0], deviation, s0::<C>()); }
+}
+
 } // verus!
 }
